@@ -296,8 +296,13 @@ uint64_t draw_countdown() {
   return 1 + (uint64_t)k;
 }
 
-void fine_sync(Thread* me) {
+void fine_sync(Thread* me, int site = 9) {
   g_st.syncPoints++;
+  if (g_cfg.hotSite != 0 && site == g_cfg.hotSite && g_cfg.hotRate > 0.0 && g_rngCount.uni() < g_cfg.hotRate) {
+    g_st.syncYields++;
+    sched_point(me);
+    return;
+  }
   if (g_cfg.syncRate <= 0.0) return;
   if (--g_countdown > 0) return;
   g_countdown = draw_countdown();
@@ -516,10 +521,10 @@ void join_clients() {
     }
 }
 
-void sync_point(int) {
+void sync_point(int site) {
   Thread* me = tl_me;
   if (!me || !g_active) return;
-  fine_sync(me);
+  fine_sync(me, site);
 }
 
 void yield_now() {
